@@ -126,7 +126,7 @@ def run(ctx):
     rng = ctx.rng
     defs, _ = refmodel.tables()
     # messages out of a reader: random stubs, CRC-colliding neighbours, frames used as payloads
-    for _ in range(ctx.n(800, 20000)):
+    for _ in range(ctx.n(4000, 20000)):
         pls = []
         for _ in range(rng.randint(2, 6)):
             p = streams.rand_unknown_payload(rng, rng.choice((2, 4, 9, 30)))
@@ -139,7 +139,7 @@ def run(ctx):
             pls.append(p)
         reader_case(ctx, pls)
     # a complete valid frame used AS a payload (numbers 0xD30..0xD33): must stay an opaque stub
-    for _ in range(ctx.n(400, 8000)):
+    for _ in range(ctx.n(2000, 8000)):
         inner = streams.rand_defined_payload(rng) if rng.random() < 0.5 else streams.rand_unknown_payload(rng, rng.randint(2, 40))
         p = refcrc.frame(inner)
         if len(p) <= 1023:
@@ -162,7 +162,7 @@ def run(ctx):
             p = bytes([hdr[0], hdr[1] | (rng.getrandbits(4) if t else 0)]) + t
             check(ctx, p, ident, defined, False)
         if defined:
-            for _ in range(3 if ctx.quick else 30):
+            for _ in range(8 if ctx.quick else 30):
                 try:
                     enc = refmodel.build(ident, rng, rng.choice(refmodel.VSTRATS), rng.choice(refmodel.CSTRATS),
                                          rng.choice(refmodel.MSTRATS))
@@ -182,7 +182,7 @@ def run(ctx):
                             bytes(rng.getrandbits(8) for _ in range(1020))))
             check(ctx, v.to_bytes(3, "big") + t, ident, defined, False)
         if defined:
-            for _ in range(3 if ctx.quick else 30):
+            for _ in range(8 if ctx.quick else 30):
                 try:
                     enc = refmodel.build(ident, rng, rng.choice(refmodel.VSTRATS), rng.choice(refmodel.CSTRATS))
                 except refmodel.DefinitionError:
